@@ -78,10 +78,7 @@ CMatV(ev) ==
       [] ev.kind = "cols" -> VBool(Len(ev.a) = ev.C /\ Len(ev.at) = ev.C /\ (\A i \in 1..ev.C : Len(ev.a[i]) = ev.R)
                                    /\ CtorOK(ev.t, MatColSources(ev.C, ev.R), ev.at, ev.a, ev.r))
       [] ev.kind = "mat"  -> IF ~(Dim(ev.C2) /\ Dim(ev.R2) /\ Len(ev.a) = 1 /\ Len(ev.at) = 1 /\ Len(ev.a[1]) = ev.C2 * ev.R2) THEN VBad
-                             ELSE IF CtorOK(ev.t, MatFromMatSources(ev.C, ev.R, ev.C2, ev.R2), ev.at, ev.a, ev.r) THEN VOk
-                             ELSE IF <<ev.C, ev.R, ev.C2, ev.R2>> = <<4, 4, 4, 2>> /\ CtorOK(ev.t, KD_Mat4x4FromMat4x2Sources, ev.at, ev.a, ev.r)
-                                  THEN VKnown("KD-C17-mat4x4-from-mat4x2-ignores-columns-2-3")
-                             ELSE VBad
+                             ELSE VBool(CtorOK(ev.t, MatFromMatSources(ev.C, ev.R, ev.C2, ev.R2), ev.at, ev.a, ev.r))
       [] OTHER -> VBad
 
 (* ---- quaternions ---- *)
